@@ -51,15 +51,20 @@ func ruleEagerReadSuffices(c *eng.Ctx) {
 		}
 		return false, false
 	})
+	// every success after the eager read either knows that the header fits into what was read, or
+	// has read the whole header (the returned bytes may be a phi of the two reads)
+	second := eng.SuccessCut(reads[1])
+	cut := eng.Union(eng.NewCut().AddEdges(enough...), second)
 	n := 0
 	for _, r := range eng.Returns(fn) {
-		if !eng.SameAs(buf)(eng.RetVal(r, 0)) {
+		if eng.IsNilConst(eng.RetVal(r, 0)) || eng.FindPath(eng.After(first.(ssa.Instruction)), r, nil) == nil {
 			continue
 		}
 		n++
-		c.MustPass(rule, "readHeader:eager-bytes-returned→header-fits", eng.After(first.(ssa.Instruction)), r, eng.NewCut().AddEdges(enough...), "the header length reported by the eager read is not larger than the number of bytes it was asked to read")
+		c.MustPass(rule, "readHeader:eager-bytes-returned→header-fits", eng.After(first.(ssa.Instruction)), r, cut, "the header length reported by the eager read is not larger than the number of bytes it was asked to read, or the whole header was read")
 	}
-	c.Check(n == 1, rule, "readHeader:eager-return", fn.Pos(), "%d returns of the eager read's bytes", n)
+	c.Check(n >= 1, rule, "readHeader:eager-return", fn.Pos(), "%d returns of header bytes after the eager read", n)
+	_ = buf
 	// the second read asks for exactly the reported length
 	c.Check(eng.SameAs(total)(eng.Arg(reads[1], 2)), rule, "readHeader:full-read-asks-for-reported-length", reads[1].Pos(), "the second read is given the length the first one reported")
 }
